@@ -7,7 +7,8 @@ from gcv.interp import Interp, State, TOP, UNIT, adt, ref, I
 from gcv.model import norm
 
 # conversions named by the properties (anchors, normalised def paths). Every function here, and every
-# local function it calls, must be free of address arithmetic.
+# local function it calls whose result (or `&mut` argument) can carry the pointer, must be free of address
+# arithmetic. Callees that return a scalar (bool, integer, unit) cannot influence the converted address.
 CONVERSIONS = [
     "gc::Gc::as_ptr", "gc::Gc::from_ptr", "gc::Gc::from_ptr_with_kind", "gc::Gc::as_thin", "gc::Gc::as_fat",
     "gc::Gc::erase", "gc::Gc::erase_kind", "gc::Gc::cast", "gc::Gc::downgrade", "gc::Gc::as_thin_ptr",
@@ -42,6 +43,40 @@ def _ptr_like(prog, tid):
     t = prog.ty(tid)
     return t.get("k") in ("ptr", "ref") or (t.get("k") == "adt" and t["def"] in (
         "core::ptr::non_null::NonNull", "gc_ptr::GcPtr", "gc::Gc", "gc_weak::GcWeak"))
+
+
+SCALAR_KINDS = ("bool", "int", "uint", "float", "char", "never", "str")
+
+
+def _carries_address(prog, tid, seen=None):
+    """Can a value of this type carry the converted pointer? Scalars and tuples of scalars cannot; anything
+    else (pointers, references, type parameters, ADTs, closures) is assumed to."""
+    t = prog.ty(tid)
+    k = t.get("k")
+    if k in SCALAR_KINDS:
+        return False
+    if k == "tuple":
+        return any(_carries_address(prog, e if isinstance(e, int) else e["ty"]) for e in t.get("elems", []))
+    return True
+
+
+def _may_return_or_write_address(prog, callee):
+    """A callee can contribute to the converted pointer only through its return value or through a `&mut`
+    argument. (A function that later builds a pointer from an integer it got back is flagged at that
+    int-to-pointer site, in its own body.)"""
+    fs = prog.fn_n.get(callee)
+    if not fs:
+        return True
+    for f in fs:
+        if "output" not in f or _carries_address(prog, f["output"]["ty"]):
+            return True
+        for a in f.get("inputs", []):
+            t = prog.ty(a["ty"])
+            if t.get("k") == "ref" and t.get("mut") and _carries_address(prog, t["ty"]):
+                return True
+            if t.get("k") == "ptr" and t.get("mut"):
+                return True
+    return False
 
 
 def arithmetic_sites(prog, key):
@@ -87,7 +122,8 @@ def cast_only(chk, prog, rule="cast-only-conversions", config="default"):
                 for (what, line) in arithmetic_sites(prog, k):
                     bad.append("%s in %s:%s" % (what, f, line))
             for e in prog.calls_from(f):
-                if e.callee and e.callee in prog.seed_n and e.callee not in ARITH_ALLOWED and e.kind != "drop":
+                if e.callee and e.callee in prog.seed_n and e.callee not in ARITH_ALLOWED and e.kind != "drop" \
+                        and _may_return_or_write_address(prog, e.callee):
                     work.append(e.callee)
         n += 1
         chk.inst(rule, "%s[%s]" % (conv, config), not bad,
